@@ -40,15 +40,27 @@ type c06 struct {
 	rec  *evid.Rec
 	ents semaEnts
 	auth []mAuth
+	u    *tgen.Universe // universe of ents (nil in sub-checkers that never ask the run-time side)
 }
 
 func newC06(t *testing.T, rec *evid.Rec) *c06 {
-	loc := common.StringLocation("c06")
-	var es semaEnts
-	for i := range es {
-		es[i] = sema.NewEntitlementType(nil, loc, fmt.Sprintf("E%d", i))
+	// the 4-entitlement universe is a checked program, so that the run-time side
+	// (static authorizations, resolved through a type converter) can be asked too
+	var sb strings.Builder
+	for i := 0; i < nEnt; i++ {
+		fmt.Fprintf(&sb, "access(all) entitlement E%d\n", i)
 	}
-	return &c06{t: t, rec: rec, ents: es, auth: allAuths()}
+	u, err := tgen.BuildUniverse(-2, []*tgen.Program{{Location: common.StringLocation("c06"), Name: "c06", Source: sb.String()}})
+	if err != nil {
+		t.Fatalf("entitlement universe: %v", err)
+	}
+	var es semaEnts
+	for _, e := range u.Entitlements {
+		var i int
+		fmt.Sscanf(e.Identifier, "E%d", &i)
+		es[i] = e
+	}
+	return &c06{t: t, rec: rec, ents: es, auth: allAuths(), u: u}
 }
 
 // ---------------------------------------------------------------- part A: algebra
@@ -71,13 +83,20 @@ func (c *c06) permitsCase(req, held mAuth, rot int) {
 		sub := sema.NewReferenceType(nil, c.ents.access(held, rot), sema.IntType)
 		sup := sema.NewReferenceType(nil, c.ents.access(req, 0), sema.IntType)
 		var g1, g2 bool
+		g3, g4 := want, want
 		p := guard(func() {
 			g1 = sema.IsSubTypeWithoutComparison(sub, sup)
 			g2 = sema.CheckSubTypeWithoutEquality_gen(sub, sup) || sub.Equal(sup)
+			if c.u != nil {
+				ssub, ssup := tgen.Static(sub).(*interpreter.ReferenceStaticType), tgen.Static(sup).(*interpreter.ReferenceStaticType)
+				g3 = interpreter.IsSubType(c.u.Inter, ssub, ssup)
+				g4 = interpreter.PermitsAccess(c.u.Inter, ssup.Authorization, ssub.Authorization)
+			}
 		})
-		if p != "" || g1 != want || g2 != want {
+		if p != "" || g1 != want || g2 != want || g3 != want || g4 != want {
 			c.rec.Violation(c.t, c06Case{Part: "permits", A: &req, B: &held, Note: "reference subtyping"},
-				"%s&Int <: %s&Int: hand-written %v, generated %v %s, set semantics say %v", held.RefPrefix(""), req.RefPrefix(""), g1, g2, p, want)
+				"%s&Int <: %s&Int: checker hand-written %v, checker generated %v, interpreter.IsSubType on static types %v, interpreter.PermitsAccess %v %s, set semantics say %v",
+				held.RefPrefix(""), req.RefPrefix(""), g1, g2, g3, g4, p, want)
 		}
 	}
 }
@@ -739,4 +758,3 @@ func (c *c06) replay(cs c06Case) {
 	}
 }
 
-var _ = interpreter.UnauthorizedAccess
